@@ -27,42 +27,47 @@ broadcast use {vf_str::ascii_byte_boundaries, vf_str::str_ends_are_boundaries, v
 
 // ---- the regex crate, as far as this function uses it ---------------------------------------------------------------
 pub mod regex { pub struct Error { pub x: u8 } }
-pub struct BytesRegex { pub pat: Ghost<Seq<char>>, pub unicode: Ghost<bool> }
-pub struct BytesRegexSet { pub pats: Ghost<Seq<Seq<char>>>, pub unicode: Ghost<bool> }
-// T (regex crate): a builder remembers the pattern text and the flags it was given; Unicode mode is on by default
-pub struct BytesRegexBuilder { pub pat: Ghost<Seq<char>>, pub unicode: Ghost<bool> }
+pub struct BytesRegex { pub pat: Ghost<Seq<char>>, pub unicode: Ghost<bool>, pub ci: Ghost<bool> }
+pub struct BytesRegexSet { pub pats: Ghost<Seq<Seq<char>>>, pub unicode: Ghost<bool>, pub ci: Ghost<bool> }
+// T (regex crate): a builder remembers the pattern text and the flags it was given; Unicode mode is on by default, case-insensitive
+// matching (`ci`) off
+pub struct BytesRegexBuilder { pub pat: Ghost<Seq<char>>, pub unicode: Ghost<bool>, pub ci: Ghost<bool> }
 impl BytesRegexBuilder {
     #[verifier::external_body]
-    pub fn new(pattern: &str) -> (r: Self) ensures r.pat@ == pattern@, r.unicode@ { unimplemented!() }
+    pub fn new(pattern: &str) -> (r: Self) ensures r.pat@ == pattern@, r.unicode@, !r.ci@ { unimplemented!() }
     #[verifier::external_body]
-    pub fn unicode(self, yes: bool) -> (r: Self) ensures r.pat@ == self.pat@, r.unicode@ == yes { unimplemented!() }
+    pub fn unicode(self, yes: bool) -> (r: Self) ensures r.pat@ == self.pat@, r.unicode@ == yes, r.ci@ == self.ci@ { unimplemented!() }
+    #[verifier::external_body]
+    pub fn case_insensitive(self, yes: bool) -> (r: Self) ensures r.pat@ == self.pat@, r.unicode@ == self.unicode@, r.ci@ == yes { unimplemented!() }
     #[verifier::external_body]
     pub fn build(self) -> (r: Result<BytesRegex, regex::Error>)
-        ensures r is Ok <==> builds(self.pat@, self.unicode@), r is Ok ==> r->Ok_0.pat@ == self.pat@ && r->Ok_0.unicode@ == self.unicode@
+        ensures r is Ok <==> builds(self.pat@, self.unicode@, self.ci@), r is Ok ==> r->Ok_0.pat@ == self.pat@ && r->Ok_0.unicode@ == self.unicode@ && r->Ok_0.ci@ == self.ci@
     { unimplemented!() }
 }
 // T (regex crate): whether a pattern text compiles is a function of the text and the flags
-pub uninterp spec fn builds(pat: Seq<char>, unicode: bool) -> bool;
-pub uninterp spec fn builds_set(pats: Seq<Seq<char>>, unicode: bool) -> bool;
+pub uninterp spec fn builds(pat: Seq<char>, unicode: bool, ci: bool) -> bool;
+pub uninterp spec fn builds_set(pats: Seq<Seq<char>>, unicode: bool, ci: bool) -> bool;
 // T (regex crate): the plain constructors use the default flags (Unicode mode on)
 impl BytesRegex {
     #[verifier::external_body]
-    pub fn new(pattern: &str) -> (r: Result<BytesRegex, regex::Error>) ensures r is Ok <==> builds(pattern@, true), r is Ok ==> r->Ok_0.pat@ == pattern@ && r->Ok_0.unicode@ { unimplemented!() }
+    pub fn new(pattern: &str) -> (r: Result<BytesRegex, regex::Error>) ensures r is Ok <==> builds(pattern@, true, false), r is Ok ==> r->Ok_0.pat@ == pattern@ && r->Ok_0.unicode@ && !r->Ok_0.ci@ { unimplemented!() }
 }
 impl BytesRegexSet {
     #[verifier::external_body]
-    pub fn new(patterns: Vec<String>) -> (r: Result<BytesRegexSet, regex::Error>) ensures r is Ok <==> builds_set(views(patterns@), true), r is Ok ==> r->Ok_0.pats@ == views(patterns@) && r->Ok_0.unicode@ { unimplemented!() }
+    pub fn new(patterns: Vec<String>) -> (r: Result<BytesRegexSet, regex::Error>) ensures r is Ok <==> builds_set(views(patterns@), true, false), r is Ok ==> r->Ok_0.pats@ == views(patterns@) && r->Ok_0.unicode@ && !r->Ok_0.ci@ { unimplemented!() }
 }
-pub struct BytesRegexSetBuilder { pub pats: Ghost<Seq<Seq<char>>>, pub unicode: Ghost<bool> }
+pub struct BytesRegexSetBuilder { pub pats: Ghost<Seq<Seq<char>>>, pub unicode: Ghost<bool>, pub ci: Ghost<bool> }
 pub open spec fn views(v: Seq<String>) -> Seq<Seq<char>> { v.map_values(|s: String| s@) }
 impl BytesRegexSetBuilder {
     #[verifier::external_body]
-    pub fn new(patterns: Vec<String>) -> (r: Self) ensures r.pats@ == views(patterns@), r.unicode@ { unimplemented!() }
+    pub fn new(patterns: Vec<String>) -> (r: Self) ensures r.pats@ == views(patterns@), r.unicode@, !r.ci@ { unimplemented!() }
     #[verifier::external_body]
-    pub fn unicode(self, yes: bool) -> (r: Self) ensures r.pats@ == self.pats@, r.unicode@ == yes { unimplemented!() }
+    pub fn unicode(self, yes: bool) -> (r: Self) ensures r.pats@ == self.pats@, r.unicode@ == yes, r.ci@ == self.ci@ { unimplemented!() }
+    #[verifier::external_body]
+    pub fn case_insensitive(self, yes: bool) -> (r: Self) ensures r.pats@ == self.pats@, r.unicode@ == self.unicode@, r.ci@ == yes { unimplemented!() }
     #[verifier::external_body]
     pub fn build(self) -> (r: Result<BytesRegexSet, regex::Error>)
-        ensures r is Ok <==> builds_set(self.pats@, self.unicode@), r is Ok ==> r->Ok_0.pats@ == self.pats@ && r->Ok_0.unicode@ == self.unicode@
+        ensures r is Ok <==> builds_set(self.pats@, self.unicode@, self.ci@), r is Ok ==> r->Ok_0.pats@ == self.pats@ && r->Ok_0.unicode@ == self.unicode@ && r->Ok_0.ci@ == self.ci@
     { unimplemented!() }
 }
 
@@ -124,20 +129,23 @@ pub open spec fn complete_shape(f: &str) -> bool {
 }
 
 // what a compiled regex is, as far as matching goes
-pub enum Shape { MatchAll, One(Seq<char>, bool), Set(Seq<Seq<char>>, bool), Error }
+pub enum Shape { MatchAll, One(Seq<char>, bool, bool), Set(Seq<Seq<char>>, bool, bool), Error }
 pub open spec fn shape(r: CompiledRegex) -> Shape {
     match r {
         CompiledRegex::MatchAll => Shape::MatchAll,
-        CompiledRegex::Compiled(x) => Shape::One(x.pat@, x.unicode@),
-        CompiledRegex::CompiledSet(x) => Shape::Set(x.pats@, x.unicode@),
+        CompiledRegex::Compiled(x) => Shape::One(x.pat@, x.unicode@, x.ci@),
+        CompiledRegex::CompiledSet(x) => Shape::Set(x.pats@, x.unicode@, x.ci@),
         CompiledRegex::RegexParsingError(_) => Shape::Error,
     }
 }
 // the regex a rule's patterns and flags denote (a function of them: compiling twice gives the same thing)
-pub open spec fn compile_shape(fs: Seq<&str>, right: bool, left: bool, complete: bool) -> Shape {
+// `ci`: a full regex (kept as written by the parser) is compiled case-insensitively unless the rule says match-case; every other
+// pattern was lower-cased by the parser and is tested against the lower-cased URL, so its regex stays case-sensitive
+pub open spec fn compile_shape(fs: Seq<&str>, right: bool, left: bool, complete: bool, ci_wanted: bool) -> Shape {
+    let ci = complete && ci_wanted;
     if some_empty(fs) || fs.len() == 0 { Shape::MatchAll }
-    else if fs.len() == 1 { if builds(pattern_of(fs[0], right, left, complete), false) { Shape::One(pattern_of(fs[0], right, left, complete), false) } else { Shape::Error } }
-    else { if builds_set(patterns_of(fs, right, left, complete), false) { Shape::Set(patterns_of(fs, right, left, complete), false) } else { Shape::Error } }
+    else if fs.len() == 1 { if builds(pattern_of(fs[0], right, left, complete), false, ci) { Shape::One(pattern_of(fs[0], right, left, complete), false, ci) } else { Shape::Error } }
+    else { if builds_set(patterns_of(fs, right, left, complete), false, ci) { Shape::Set(patterns_of(fs, right, left, complete), false, ci) } else { Shape::Error } }
 }
 
 //@EXTRACT src/regex_manager.rs :: fn compile_regex
@@ -153,12 +161,14 @@ pub open spec fn compile_shape(fs: Seq<&str>, right: bool, left: bool, complete:
         some_empty(filters.remaining()) || filters.remaining().len() == 0 ==> r is MatchAll, // OBL C02.regex.compile.match_all
         // one pattern: the regex of its translation; Unicode mode off (URLs are matched as bytes)
         !some_empty(filters.remaining()) && filters.remaining().len() == 1 ==> (r is RegexParsingError
-            || (r is Compiled && r->Compiled_0.pat@ == pattern_of(filters.remaining()[0], is_right_anchor, is_left_anchor, is_complete_regex) && !r->Compiled_0.unicode@)), // OBL C02.regex.compile.single
+            || (r is Compiled && r->Compiled_0.pat@ == pattern_of(filters.remaining()[0], is_right_anchor, is_left_anchor, is_complete_regex) && !r->Compiled_0.unicode@
+                && r->Compiled_0.ci@ == (is_complete_regex && case_insensitive))), // OBL C02.regex.compile.single
         // several patterns (a fused rule): the set of exactly their translations, in order
         !some_empty(filters.remaining()) && filters.remaining().len() >= 2 ==> (r is RegexParsingError
-            || (r is CompiledSet && r->CompiledSet_0.pats@ == patterns_of(filters.remaining(), is_right_anchor, is_left_anchor, is_complete_regex) && !r->CompiledSet_0.unicode@)), // OBL C02.regex.compile.set
+            || (r is CompiledSet && r->CompiledSet_0.pats@ == patterns_of(filters.remaining(), is_right_anchor, is_left_anchor, is_complete_regex) && !r->CompiledSet_0.unicode@
+                && r->CompiledSet_0.ci@ == (is_complete_regex && case_insensitive))), // OBL C02.regex.compile.set
         // the same, as a function of the inputs (C06: a recompiled regex is the regex that was discarded)
-        shape(r) == compile_shape(filters.remaining(), is_right_anchor, is_left_anchor, is_complete_regex), // OBL C02.regex.compile.function_of_inputs
+        shape(r) == compile_shape(filters.remaining(), is_right_anchor, is_left_anchor, is_complete_regex, case_insensitive), // OBL C02.regex.compile.function_of_inputs
 //@ ENDSPEC
 //@ SUBST R9
     use once_cell::sync::Lazy;
@@ -273,29 +283,33 @@ pub open spec fn compile_shape(fs: Seq<&str>, right: bool, left: bool, complete:
     ensures
         some_empty(filters.remaining()) || filters.remaining().len() == 0 ==> r is MatchAll, // OBL C02.regex.make.match_all
         !some_empty(filters.remaining()) && filters.remaining().len() == 1 ==> (r is RegexParsingError
-            || (r is Compiled && !r->Compiled_0.unicode@ && r->Compiled_0.pat@ == pattern_of(filters.remaining()[0],
+            || (r is Compiled && !r->Compiled_0.unicode@
+                && r->Compiled_0.ci@ == (mask.has(NetworkFilterMask::IS_COMPLETE_REGEX) && !mask.has(NetworkFilterMask::MATCH_CASE))
+                && r->Compiled_0.pat@ == pattern_of(filters.remaining()[0],
                     mask.has(NetworkFilterMask::IS_RIGHT_ANCHOR), mask.has(NetworkFilterMask::IS_LEFT_ANCHOR), mask.has(NetworkFilterMask::IS_COMPLETE_REGEX)))), // OBL C02.regex.make.single
         !some_empty(filters.remaining()) && filters.remaining().len() >= 2 ==> (r is RegexParsingError
-            || (r is CompiledSet && !r->CompiledSet_0.unicode@ && r->CompiledSet_0.pats@ == patterns_of(filters.remaining(),
+            || (r is CompiledSet && !r->CompiledSet_0.unicode@
+                && r->CompiledSet_0.ci@ == (mask.has(NetworkFilterMask::IS_COMPLETE_REGEX) && !mask.has(NetworkFilterMask::MATCH_CASE))
+                && r->CompiledSet_0.pats@ == patterns_of(filters.remaining(),
                     mask.has(NetworkFilterMask::IS_RIGHT_ANCHOR), mask.has(NetworkFilterMask::IS_LEFT_ANCHOR), mask.has(NetworkFilterMask::IS_COMPLETE_REGEX)))), // OBL C02.regex.make.set
-        shape(r) == compile_shape(filters.remaining(), mask.has(NetworkFilterMask::IS_RIGHT_ANCHOR), mask.has(NetworkFilterMask::IS_LEFT_ANCHOR), mask.has(NetworkFilterMask::IS_COMPLETE_REGEX)), // OBL C02.regex.make.function_of_inputs
+        shape(r) == compile_shape(filters.remaining(), mask.has(NetworkFilterMask::IS_RIGHT_ANCHOR), mask.has(NetworkFilterMask::IS_LEFT_ANCHOR), mask.has(NetworkFilterMask::IS_COMPLETE_REGEX), !mask.has(NetworkFilterMask::MATCH_CASE)), // OBL C02.regex.make.function_of_inputs
 //@ ENDSPEC
 //@END
 
 // ---- C06: the regex cache (RegexManager::matches) -----------------------------------------------------------------------
 // T (regex crate): whether a compiled regex finds a match is a function of what it was compiled from and of the text
-pub uninterp spec fn re_match(pat: Seq<char>, unicode: bool, text: Seq<u8>) -> bool;
-pub uninterp spec fn re_set_match(pats: Seq<Seq<char>>, unicode: bool, text: Seq<u8>) -> bool;
+pub uninterp spec fn re_match(pat: Seq<char>, unicode: bool, ci: bool, text: Seq<u8>) -> bool;
+pub uninterp spec fn re_set_match(pats: Seq<Seq<char>>, unicode: bool, ci: bool, text: Seq<u8>) -> bool;
 impl BytesRegex {
     #[verifier::external_body]
-    pub fn is_match(&self, text: &[u8]) -> (r: bool) ensures r == re_match(self.pat@, self.unicode@, text@) { unimplemented!() }
+    pub fn is_match(&self, text: &[u8]) -> (r: bool) ensures r == re_match(self.pat@, self.unicode@, self.ci@, text@) { unimplemented!() }
 }
 impl BytesRegexSet {
     #[verifier::external_body]
-    pub fn is_match(&self, text: &[u8]) -> (r: bool) ensures r == re_set_match(self.pats@, self.unicode@, text@) { unimplemented!() }
+    pub fn is_match(&self, text: &[u8]) -> (r: bool) ensures r == re_set_match(self.pats@, self.unicode@, self.ci@, text@) { unimplemented!() }
 }
 pub open spec fn shape_match(s: Shape, text: Seq<u8>) -> bool {
-    match s { Shape::MatchAll => true, Shape::Error => false, Shape::One(p, u) => re_match(p, u, text), Shape::Set(ps, u) => re_set_match(ps, u, text) }
+    match s { Shape::MatchAll => true, Shape::Error => false, Shape::One(p, u, c) => re_match(p, u, c, text), Shape::Set(ps, u, c) => re_set_match(ps, u, c, text) }
 }
 impl CompiledRegex {
 //@EXTRACT src/regex_manager.rs :: impl CompiledRegex :: fn is_match
@@ -322,7 +336,7 @@ impl VfVacant {
     pub fn insert(self, v: RegexEntry) -> (r: RegexEntry) ensures r == v { unimplemented!() }
 }
 pub open spec fn rule_shape(mask: NetworkFilterMask, fs: Seq<&str>) -> Shape {
-    compile_shape(fs, mask.has(NetworkFilterMask::IS_RIGHT_ANCHOR), mask.has(NetworkFilterMask::IS_LEFT_ANCHOR), mask.has(NetworkFilterMask::IS_COMPLETE_REGEX))
+    compile_shape(fs, mask.has(NetworkFilterMask::IS_RIGHT_ANCHOR), mask.has(NetworkFilterMask::IS_LEFT_ANCHOR), mask.has(NetworkFilterMask::IS_COMPLETE_REGEX), !mask.has(NetworkFilterMask::MATCH_CASE))
 }
 // cache invariant for the entry of this rule: a regex that is still held was compiled from this rule
 pub open spec fn entry_ok(v: RegexEntry, mask: NetworkFilterMask, fs: Seq<&str>) -> bool { v.regex is Some ==> shape(v.regex->Some_0) == rule_shape(mask, fs) }
